@@ -10,40 +10,58 @@ Open Scope N_scope.
 
 (* ---- datagrams that cannot be parsed as DTLS records ---- *)
 
-(* dropped without any effect: empty datagrams, datagrams whose record framing is wrong
-   (ErrInvalidPacketLength) and records whose header does not decode *)
-Theorem C08_undecodable_dropped_partial :
-  forall (W : nat) (full neg : bool) (s : rstate) (d : dgram),
-    undecodable d -> d <> DOtherErr -> (d = DLenErr -> neg = false) -> recv_dgram W full neg s d = (s, []).
-Proof. exact undecodable_dropped_partial. Qed.
-Print Assumptions C08_undecodable_dropped_partial.
+(* dropped without any effect, in every state (handshake in progress, dual-stack version negotiation,
+   established): empty datagrams, datagrams that unpackDatagram cannot split - wrong lengths, a first byte
+   that is no record type, a malformed DTLS 1.3 unified header, a connection-id bit without a connection id -
+   and records whose header does not decode.  (Regression corpus on the real code: 2c, 300000, 00, 2f0001 ...;
+   before 5a7ed2c all but the length errors ended the handshake / surfaced in Read.) *)
+Theorem C08_undecodable_dropped :
+  forall (W : nat) (full : bool) (s : rstate) (d : dgram),
+    undecodable d -> recv_dgram W full s d = (s, []).
+Proof. exact undecodable_dropped. Qed.
+Print Assumptions C08_undecodable_dropped.
 
-(* the ideal statement is FALSE for the code as it is: every other framing error surfaces
-   (the handshake in progress fails / Read returns an error).  Witness replayed by the harness:
-   the one-byte datagram 2c *)
-Theorem C08_undecodable_dropped_refuted :
-  forall (W : nat) (full neg : bool) (s : rstate), r_closed s = false ->
-    exists d, undecodable d /\ recv_dgram W full neg s d = (s, [OErr]).
-Proof. exact undecodable_dropped_refuted. Qed.
-Print Assumptions C08_undecodable_dropped_refuted.
+(* an UNPROTECTED (epoch 0) record with a well-formed header whose content does not decode - unknown content
+   type, malformed alert / change_cipher_spec / ACK / RRC - is dropped without any effect, in every state.
+   (Regression corpus: 63fefd000000000000f00500010a, 15fefd...0001ff, 14fefd...000102; before d2d55dd they were
+   answered with a fatal decode_error alert and ended the handshake / surfaced in Read.) *)
+Theorem C08_undecodable_content_dropped :
+  forall (W : nat) (lease full : bool) (s : rstate) (w : wire),
+    w_epoch w = 0 -> w_clear w = CBad -> recv_fb W lease full s w = (s, []).
+Proof. exact undecodable_content_dropped. Qed.
+Print Assumptions C08_undecodable_content_dropped.
 
-(* while a dual-stack endpoint is still negotiating the version, even a length/framing error (any
-   datagram shorter than a record header, e.g. one byte) ends the handshake *)
-Theorem C08_undecodable_negotiating_refuted :
-  forall (W : nat) (full : bool) (s : rstate), r_closed s = false ->
-    recv_dgram W full true s DLenErr = (s, [OErr]).
-Proof. exact undecodable_negotiating_refuted. Qed.
-Print Assumptions C08_undecodable_negotiating_refuted.
+(* as coded, and an explicit exception (X4): content that AUTHENTICATES under the session keys and does not
+   decode is answered with a fatal decode_error alert and an error - only the peer holding the keys can send it *)
+Theorem C08_authenticated_undecodable_surfaces :
+  forall (W : nat) (lease full : bool) (s : rstate) (w : wire),
+    r_closed s = false -> r_init s = true -> w_epoch w <> 0 -> w_epoch w <= r_epoch s -> w_ctype w <> ct_ccs ->
+    w_auth w = Some CBad -> len (r_cid s) = 0 -> w_ctype w <> ct_cid ->
+    check maxseq48 (get_win W (w_epoch w) (r_wins s)) (w_seq w) = true ->
+    recv_fb W lease full s w = (s, [OAlert alert_fatal desc_decode_error; OErr]).
+Proof. exact authenticated_undecodable_surfaces. Qed.
+Print Assumptions C08_authenticated_undecodable_surfaces.
 
-(* ... and an unprotected record with a fresh number whose content does not decode is answered with a
-   fatal decode_error alert and an error.  Witness replayed by the harness: 63fefd000000000000f00500010a *)
-Theorem C08_undecodable_content_refuted :
+(* STILL OPEN, as coded: a record typed change_cipher_spec claiming the current protected epoch is taken as
+   cleartext without any authentication; with a body other than 01 an unauthenticated sender obtains a fatal
+   decode_error alert and an error (Read error after establishment; the alert closes the peer).
+   Witness replayed by the harness: 14fefd0001 00000010xxxx 0001 02 *)
+Theorem C08_ccs_claiming_epoch_refuted :
+  forall (W : nat) (lease full : bool) (s : rstate) (w : wire),
+    r_closed s = false -> r_init s = true -> w_epoch w <> 0 -> w_epoch w <= r_epoch s -> w_ctype w = ct_ccs ->
+    w_auth w = None -> w_clear w = CBad -> len (r_cid s) = 0 ->
+    check maxseq48 (get_win W (w_epoch w) (r_wins s)) (w_seq w) = true ->
+    recv_fb W lease full s w = (s, [OAlert alert_fatal desc_decode_error; OErr]).
+Proof. exact ccs_claiming_epoch_refuted. Qed.
+Print Assumptions C08_ccs_claiming_epoch_refuted.
+
+(* recv_fb with room in the reassembly buffer is the receive path of Rec/Recv.v (C05/C06), except for the
+   unprotected undecodable record above, which Recv.v still answers as the code did before d2d55dd *)
+Theorem C08_recv_fb_is_recv :
   forall (W : nat) (lease : bool) (s : rstate) (w : wire),
-    r_closed s = false -> w_epoch w = 0 -> w_clear w = CBad -> r_epoch s = 0 \/ 0 < r_epoch s ->
-    check maxseq48 (get_win W 0 (r_wins s)) (w_seq w) = true ->
-    recv W lease s w = (s, [OAlert alert_fatal desc_decode_error; OErr]).
-Proof. exact undecodable_content_refuted. Qed.
-Print Assumptions C08_undecodable_content_refuted.
+    (w_epoch w =? 0) && is_bad (w_clear w) = false -> recv_fb W lease false s w = recv W lease s w.
+Proof. exact recv_fb_open. Qed.
+Print Assumptions C08_recv_fb_is_recv.
 
 (* ---- protected records that fail authentication ---- *)
 Theorem C08_forged_dropped :
@@ -126,19 +144,50 @@ Theorem C08_queue_full_exception_refuted :
 Proof. exact queue_full_exception_refuted. Qed.
 Print Assumptions C08_queue_full_exception_refuted.
 
-(* ---- the wedge: once the reassembly buffer is at its limit EVERY record is dropped ---- *)
-Theorem C08_full_buffer_drops_everything :
-  forall (W : nat) (lease : bool) (s : rstate) (w : wire), snd (recv_fb W lease true s w) = [].
-Proof. exact full_buffer_drops_everything. Qed.
-Print Assumptions C08_full_buffer_drops_everything.
+(* ---- the reassembly buffer at its limit (FragmentBuffer.Push as repaired in 826a95e) ---- *)
 
-(* "an authentic application record of the current epoch is delivered" is false behind a full buffer *)
-Theorem C08_full_buffer_wedge_refuted :
-  deliveries (snd (recv_fb 64 true false wedge_state wedge_record)) = [([42], 1, 7)] /\
-  snd (recv_fb 64 true true wedge_state wedge_record) = [] /\
-  fst (recv_fb 64 true true wedge_state wedge_record) = wedge_state.
-Proof. exact full_buffer_wedge_refuted. Qed.
-Print Assumptions C08_full_buffer_wedge_refuted.
+(* every record that is not a handshake record - application data, alerts, change_cipher_spec, ACK, RRC -
+   is processed exactly as with room in the buffer *)
+Theorem C08_full_buffer_passes_non_handshake :
+  forall (W : nat) (lease : bool) (s : rstate) (w : wire),
+    hs_content w = false -> recv_fb W lease true s w = recv_fb W lease false s w.
+Proof. exact full_buffer_passes_non_handshake. Qed.
+Print Assumptions C08_full_buffer_passes_non_handshake.
+
+(* positive: with the buffer full, an authentic application record for an established, open connection is
+   delivered exactly when the replay detector of its epoch accepts its number *)
+Theorem C08_appdata_delivered_with_full_buffer :
+  forall (W : nat) (lease : bool) (s : rstate) (w : wire) (p : bytes),
+    r_closed s = false -> r_init s = true -> w_epoch w <> 0 -> w_epoch w <= r_epoch s ->
+    w_ctype w <> ct_ccs -> w_auth w = Some (CApp p) ->
+    (len (r_cid s) = 0 \/ w_ctype w = ct_cid) ->
+    bytes_eqb (r_cid s) (if w_ctype w =? ct_cid then w_cid w else []) = true ->
+    deliveries (snd (recv_fb W lease true s w)) =
+      if check maxseq48 (get_win W (w_epoch w) (r_wins s)) (w_seq w) then [(p, w_epoch w, w_seq w)] else [].
+Proof. exact appdata_delivered_with_full_buffer. Qed.
+Print Assumptions C08_appdata_delivered_with_full_buffer.
+
+(* regression witness of the repaired wedge (before 826a95e this delivery list was empty) *)
+Theorem C08_full_buffer_appdata_regression :
+  deliveries (snd (recv_fb 64 true true wedge_state wedge_record)) = [([42], 1, 7)].
+Proof. exact full_buffer_appdata_regression. Qed.
+Print Assumptions C08_full_buffer_appdata_regression.
+
+(* handshake records are still refused: no output, so no handshake progress *)
+Theorem C08_full_buffer_refuses_handshake :
+  forall (W : nat) (lease : bool) (s : rstate) (w : wire),
+    hs_content w = true -> snd (recv_fb W lease true s w) = [].
+Proof. exact full_buffer_refuses_handshake. Qed.
+Print Assumptions C08_full_buffer_refuses_handshake.
+
+(* what remains open: "an authentic handshake record of the expected flight makes the handshake progress" is
+   false behind a full buffer - the peer's Finished is refused *)
+Theorem C08_full_buffer_handshake_wedge_refuted :
+  snd (recv_fb 64 true false wedge_state wedge_finished) = [OMark 1 0; OHs false] /\
+  snd (recv_fb 64 true true wedge_state wedge_finished) = [] /\
+  fst (recv_fb 64 true true wedge_state wedge_finished) = wedge_state.
+Proof. exact full_buffer_handshake_wedge_refuted. Qed.
+Print Assumptions C08_full_buffer_handshake_wedge_refuted.
 
 (* ... and the buffer can be driven there by unauthenticated fragments and then stays there (C12) *)
 Theorem C08_buffer_fills_and_stays_full :
